@@ -233,6 +233,13 @@ def rule_r2(ck, prog, suffix, g_add, rd_add, full_rel, f_add):
     # slot index at both slot accesses
     for p in g_add.calls(('AtomicUniquePtr::SwapIfNull', 'AtomicUniquePtr::Swap')):
         on = f_add.nodes[p.n['obj']]
+        if on['k'] == 'ref' and on.get('sk') == 'local':
+            # a named reference to the slot: judge the expression it was bound to
+            # (a reference is bound once: later non-const calls on it are uses of the slot, not re-bindings)
+            srcs = [sn for (sf, sn, sc) in origins(g_add, rd_add, f_add, p.n['obj'], p.ctx)
+                    if sf is f_add and (sn['k'] == 'subscript' or (sn['k'] == 'call' and sn.get('op') == '[]'))]
+            if len({sn['i'] for sn in srcs}) == 1:
+                on = srcs[0]
         idx = None
         if on['k'] == 'call' and on.get('op') == '[]':
             idx = on['args'][0]
